@@ -1,7 +1,115 @@
-(* C18 - placeholder; theorems are added as proofs land *)
-From Coq Require Import ZArith QArith List.
-From NutsV Require Import model.Mclmc.
+(* C18 - MCLMC keeps its structural invariants.
+   Statements over model/Mclmc.v (exact rationals; zeta = exp(-delta) in (0,1] is an input);
+   proofs in proofs/Mclmc_facts.v. *)
+From Coq Require Import QArith List ZArith NArith Bool Arith.
+From NutsV Require Import model.Mclmc proofs.Mclmc_facts.
 Import ListNotations.
-Example C18_model_runs : run_kernel_model 2 10 [1; 0; 0; 0]%Z = [[0; 3; 2; 1; 0]; [0; 1; 1; 0]]%Z.
+
+(* the raw ESH update has the closed-form norm 1 + alpha + (1 - alpha) zeta^2 ... *)
+Theorem C18_esh_raw_norm :
+  forall (ghat p : list Q) (z : Q),
+    length ghat = length p -> qdot ghat ghat == 1 -> qdot p p == 1 ->
+    qdot (esh_raw ghat p z) (esh_raw ghat p z) ==
+    esh_norm (esh_alpha ghat p) z * esh_norm (esh_alpha ghat p) z.
+Proof. exact esh_raw_norm. Qed.
+Print Assumptions C18_esh_raw_norm.
+
+(* ... which is positive, so the renormalised momentum has unit norm after every update *)
+Theorem C18_esh_unit_norm :
+  forall (ghat p : list Q) (z : Q),
+    length ghat = length p -> qdot ghat ghat == 1 -> qdot p p == 1 -> 0 < z -> z <= 1 ->
+    0 < esh_norm (esh_alpha ghat p) z /\
+    qdot (esh_update ghat p z) (esh_update ghat p z) == 1.
+Proof. exact esh_unit_norm. Qed.
+Print Assumptions C18_esh_unit_norm.
+
+Theorem C18_esh_alpha_in_range :
+  forall ghat p : list Q,
+    length ghat = length p -> qdot ghat ghat == 1 -> qdot p p == 1 ->
+    - (1) <= esh_alpha ghat p /\ esh_alpha ghat p <= 1.
+Proof. exact esh_alpha_bounds. Qed.
+Print Assumptions C18_esh_alpha_in_range.
+
+(* the reported kinetic-energy change takes ln_1p of that same denominator minus one *)
+Theorem C18_esh_kinetic_energy_argument :
+  forall alpha z : Q, esh_log_arg alpha z == esh_norm alpha z - 1.
+Proof. exact esh_log_arg_is_norm_minus_one. Qed.
+Print Assumptions C18_esh_kinetic_energy_argument.
+
+Theorem C18_normalize_unit :
+  forall (sq : Q -> Q) (v : list Q),
+    0 < qdot v v -> sq (qdot v v) * sq (qdot v v) == qdot v v ->
+    qdot (qnormalize sq v) (qnormalize sq v) == 1.
+Proof. exact normalize_unit_at. Qed.
+Print Assumptions C18_normalize_unit.
+
+(* a draw without divergence takes exactly num_base full-size steps *)
+Theorem C18_steps_exact :
+  forall (num_base mh : nat) (outs : list outcome),
+    Forall (fun o => o = OOk) outs -> (num_base <= length outs)%nat ->
+    exists s, kernel num_base mh outs = KDone s /\ k_steps s = num_base /\
+              k_time s == inject_Z (Z.of_nat num_base) /\ k_log s = repeat 0%nat num_base /\
+              k_remaining s = 0%nat /\ k_stack s = [].
+Proof. exact steps_exact. Qed.
+Print Assumptions C18_steps_exact.
+
+(* with retries: the integration time is still exactly num_base base steps, more and smaller steps
+   are taken, every extra step has a factor < 1, and exactly num_base steps iff no divergence *)
+Theorem C18_retry_accounting :
+  forall (num_base mh : nat) (outs : list outcome) (s : kstate),
+    kernel num_base mh outs = KDone s ->
+    k_time s == inject_Z (Z.of_nat num_base) /\ (num_base <= k_steps s)%nat /\
+    ((num_base < k_steps s)%nat -> Exists (fun h => (0 < h)%nat) (k_log s)) /\
+    (k_steps s = num_base <->
+     Forall (fun o => o = OOk) (firstn (consumed mh outs (init_state num_base)) outs)).
+Proof.
+  intros num_base mh outs s H. repeat split.
+  - exact (retry_accounting num_base mh outs s H).
+  - exact (retry_steps_ge num_base mh outs s H).
+  - exact (retry_extra_steps_halved num_base mh outs s H).
+  - apply (proj1 (retry_steps_eq_iff_no_div num_base mh outs s H)).
+  - apply (proj2 (retry_steps_eq_iff_no_div num_base mh outs s H)).
+Qed.
+Print Assumptions C18_retry_accounting.
+
+Theorem C18_halving_depth_bounded :
+  forall (num_base mh : nat) (outs : list outcome),
+    Forall (fun h => (h <= mh)%nat) (k_log (kstate_of (kernel num_base mh outs))) /\
+    (length (k_stack (kstate_of (kernel num_base mh outs))) <= mh)%nat /\
+    Forall (fun s => (length (k_stack s) <= mh)%nat /\ Forall (fun h => (h <= mh)%nat) (k_log s))
+           (ktrace mh outs (init_state num_base)).
+Proof. exact halving_depth_bounded. Qed.
+Print Assumptions C18_halving_depth_bounded.
+
+(* a recorded divergence happens only with the halving budget exhausted; without dynamic step
+   size (budget 0) any divergence ends the draw *)
+Theorem C18_divergence_only_when_budget_exhausted :
+  forall (num_base mh : nat) (outs : list outcome) (s : kstate),
+    kernel num_base mh outs = KDiverged s -> length (k_stack s) = mh.
+Proof. intros n mh outs s H. exact (proj1 (divergence_only_when_budget_exhausted n mh outs s H)). Qed.
+Print Assumptions C18_divergence_only_when_budget_exhausted.
+
+Theorem C18_static_step_divergence_ends_draw :
+  forall (num_base : nat) (outs : list outcome),
+    In ODiv (firstn (consumed 0 outs (init_state num_base)) outs) ->
+    exists s, kernel num_base 0 outs = KDiverged s.
+Proof. exact no_budget_any_div_diverges. Qed.
+Print Assumptions C18_static_step_divergence_ends_draw.
+
+(* the trajectory switch happens once, at the configured draw, with a fresh momentum *)
+Theorem C18_switch_once :
+  forall (sd : N) (n : nat),
+    switch_run TEarlyThenMicro sd 0%N n (initial_micro TEarlyThenMicro) =
+    map (switch_flags sd) (seq 0 n).
+Proof. exact switch_once. Qed.
+Print Assumptions C18_switch_once.
+
+Theorem C18_switch_never :
+  forall (k : tkind) (sd : N) (n : nat), k = TMicro \/ k = TEuclid ->
+    switch_run k sd 0%N n (initial_micro k) = repeat (initial_micro k, false) n.
+Proof. exact switch_never_initial. Qed.
+Print Assumptions C18_switch_never.
+
+Example C18_nonvacuous : run_kernel_model 2 10 [1; 0; 0; 0]%Z = [[0; 3; 2; 1; 0]; [0; 1; 1; 0]]%Z.
 Proof. vm_compute. reflexivity. Qed.
-Print Assumptions C18_model_runs.
+Print Assumptions C18_nonvacuous.
